@@ -25,7 +25,7 @@ from .common import Ctx
 from . import sched as S
 from .sched import Scheduler
 
-DRIVERS = ["drv_db"]
+DRIVERS = ["drv_db", "drv_e2e"]     # drv_e2e serves lean/Tup/Drv/Txn.lean (`txn blocks …`)
 EVIDENCE = dict(
     level="proof",
     trusted=[
@@ -85,6 +85,212 @@ def dump(dbfile):
         return out
     finally:
         con.close()
+
+
+# ---------------------------------------------------------------------------------------------
+# K "block structure": the decomposition of every public call into atomic blocks, on which the theorems of
+# Props/C03.lean and Props/C12.lean rest, compared with the SQL trace of the real call (lean/Tup/Drv/Txn.lean,
+# served by drv_e2e).  Shared with harness/c12.py.
+# ---------------------------------------------------------------------------------------------
+NS_ORDER = ["ids_8bit_diacritic", "ids_16bit", "ids_32bit", "ids_8bit", "ids_24bit"]     # Space.all / IDSpace.all_values()
+WRITE_VERBS = {"INSERT", "UPDATE", "DELETE", "REPLACE", "CREATE", "DROP", "ALTER"}
+BLOCK_DRIVER = "drv_e2e"
+
+
+class BlockRecorder:
+    """Trace-callback companion for ONE operation on `conn`: the statements (whitespace-normalised, parameters
+    expanded by sqlite) and a dump of all six tables, read through a second connection, at every point where the
+    connection is outside a transaction (= before every atomic block) and once more at the end."""
+
+    def __init__(self, conn, dbfile):
+        self.conn, self.dbfile = conn, dbfile
+        self.stmts, self.snaps, self.starts = [], [], []
+
+    def before_statement(self, sql):
+        if not self.conn.in_transaction:
+            self.snaps.append(dump(self.dbfile))
+            self.starts.append(len(self.stmts))
+        self.stmts.append(" ".join(sql.split()))
+
+    def finish(self):
+        self.snaps.append(dump(self.dbfile))
+        return describe_blocks(self.stmts, self.starts, self.snaps)
+
+
+def _verb(stmt):
+    return stmt.split(None, 1)[0].upper() if stmt.strip() else ""
+
+
+def describe_blocks(stmts, starts, snaps):
+    """[{kind, changed, gone, stmts}] — one entry per atomic block of the real call.
+    kind: txn-write (BEGIN IMMEDIATE/EXCLUSIVE … COMMIT) | txn-read (BEGIN [DEFERRED] … COMMIT without a writing
+    statement) | txn-deferred-write (a deferred transaction that writes) | stmt-write | stmt-read (autocommit);
+    a transaction that ends otherwise than by COMMIT/END gets the suffix !rollback / !open.  The number of
+    statements inside a transaction is deliberately not part of the description."""
+    out = []
+    for k, a in enumerate(starts):
+        b = stmts[a: starts[k + 1] if k + 1 < len(starts) else len(stmts)]
+        head = b[0].upper()
+        if _verb(b[0]) == "BEGIN":
+            writes = any(_verb(x) in WRITE_VERBS for x in b[1:])
+            if "IMMEDIATE" in head or "EXCLUSIVE" in head:
+                kind = "txn-write"
+            else:
+                kind = "txn-deferred-write" if writes else "txn-read"
+            last = _verb(b[-1])
+            if last == "ROLLBACK":
+                kind += "!rollback"
+            elif last not in ("COMMIT", "END") or len(b) < 2:
+                kind += "!open"
+            if sum(1 for x in b if _verb(x) == "BEGIN") != 1 or sum(1 for x in b if _verb(x) in ("COMMIT", "END", "ROLLBACK")) > 1:
+                kind += "!nested"
+        else:
+            v = _verb(b[0])
+            kind = "stmt-write" if v in WRITE_VERBS else "stmt-read" if v == "SELECT" else "stmt-other!" + v
+            if len(b) != 1:
+                kind += "!run-on"        # statements outside a transaction are blocks of their own; cannot happen
+        pre, post = snaps[k], snaps[k + 1]
+        gone = {t: sorted({r[0] for r in pre[t]} - {r[0] for r in post[t]}) for t in NS_ORDER}
+        out.append(dict(kind=kind, changed=pre != post, gone=gone, stmts=[" ".join(x.split(None, 2)[:2]) for x in b]))
+    return out
+
+
+def enc_db(d):
+    """a dump of c03.dump / c12.full_dump (ISO timestamps) in the wire format of lean/Tup/Drv/Db.lean (µs since datetime.min)"""
+    from . import dbutil as D
+    ids = [[(i, desc, D.iso_to_us(at)) for (i, desc, at) in d[t]] for t in NS_ORDER]
+    up = sorted(((i, term, desc, size, D.iso_to_us(tm)) for (i, term, desc, size, tm) in d["upload"]), key=lambda r: (r[0], r[1]))
+    return D.enc_dump({"ids": ids, "up": up})
+
+
+def op_wire(op, *, result, blocks, stmts, pre, post, now_us):
+    """The model request for `op`, with the implementation's choices: the id it returned, the candidates it sampled
+    (SQL trace), the rows its clean-ups removed (table dumps around each block), the clock value it read."""
+    from . import dbutil as D
+    k = op[0]
+
+    def sp(name):
+        cb, u3 = SPACES[name]
+        return f"{cb} {1 if u3 else 0}"
+
+    if k == "get":
+        _, desc, space, b, e = op
+        rounds, _n, _b = D.get_id_trace_choices(stmts)
+        table = NS_ORDER[[(0, True), (8, True), (24, True), (8, False), (24, False)].index(SPACES[space])]
+        removed = [bl["gone"][table] for bl in blocks if len(bl["stmts"]) == 1 and bl["stmts"][0].upper().startswith("DELETE")]
+        pick = result if isinstance(result, int) and not isinstance(result, bool) else 0
+        return f"get {sp(space)} {b} {e} {D.hxs(desc)} {now_us} {pick} {D._enc_rounds(rounds)} {D._enc_rounds(removed)}"
+    if k == "set":
+        return f"set {op[1]} {D.hxs(op[2])} {now_us}"
+    if k == "del":
+        return f"del {op[1]}"
+    if k == "cleanup":
+        _, space, b, e, mx = op
+        table = NS_ORDER[[(0, True), (8, True), (24, True), (8, False), (24, False)].index(SPACES[space])]
+        gone = sorted({r[0] for r in pre[table]} - {r[0] for r in post[table]})
+        return f"cleanup {sp(space)} {b} {e} {mx} {','.join(map(str, gone)) or '-'}"
+    if k == "mark":
+        return f"mark {op[1]} {D.hxs(op[2])} {op[3]} {now_us}"
+    if k == "cleanup_uploads":
+        kept = ",".join(f"{r[0]}:{D.hxs(r[1])}" for r in sorted(post["upload"])) or "-"
+        return f"cleanup_uploads {op[1]} {kept}"
+    if k == "needs":
+        mu = op[3] if len(op) > 3 else 1024
+        return f"needs {op[1]} {D.hxs(op[2])} {mu} {20 * 2 ** 20} {3600 * 1000000} {now_us}"
+    if k == "upinfo":
+        return f"upinfo {op[1]} {D.hxs(op[2])}"
+    if k == "info":
+        return f"info {op[1]}"
+    if k == "count":
+        _, space, b, e = op
+        return f"count {sp(space)} {b} {e}"
+    return None
+
+
+def _result_kind(op, r):
+    """the result of the real call in the vocabulary of Drv/Txn.lean's reply (None: not compared)"""
+    k = op[0]
+    if r == "RuntimeError" or (isinstance(r, (tuple, list)) and r and r[0] == "exc" and r[1] == "RuntimeError"):
+        return "noid" if k == "get" else None
+    if isinstance(r, (tuple, list)) and r and r[0] == "exc":
+        return None
+    if k == "get":
+        return f"id {r}"
+    if k in ("set", "del", "cleanup", "mark", "cleanup_uploads"):
+        return "unit"
+    if k == "needs":
+        return f"bool {1 if r else 0}"
+    if k == "count":
+        return f"nat {r}"
+    return None
+
+
+def compare_block_structure(ctx: Ctx, case, *, op, max_ids, pre, post, result, blocks, stmts, now_us):
+    """K: block-kind sequence (+ whether each block changed the database) of the real call vs the model's `lone`
+    run of the same call on the same database with the implementation's choices."""
+    if isinstance(max_ids, bool) or not isinstance(max_ids, int) or max_ids < 0:
+        ctx.count("K-blocks:skipped:max_ids-not-a-natural-number")
+        return
+    wire = op_wire(op, result=result, blocks=blocks, stmts=stmts, pre=pre, post=post, now_us=now_us)
+    if wire is None or (op[0] in ("set", "del", "mark", "needs", "upinfo", "info") and not (isinstance(op[1], int) and op[1] >= 0)):
+        ctx.count("K-blocks:skipped:op-not-expressible")
+        return
+    reply = ctx.driver(BLOCK_DRIVER).ask(f"txn blocks {max_ids} {enc_db(pre)} {wire}")
+    toks = reply.split(" ")
+    if toks[0] != "ok":
+        ctx.mismatch("block structure: driver rejected the request", case, {"request": wire[:300]}, reply[:300])
+        return
+    model_blocks = [] if toks[1] == "-" else toks[1].split(",")
+    model_result = " ".join(toks[2:])
+    real = [f"{b['kind']}:{1 if b['changed'] else 0}" for b in blocks]
+    detail = {"op": op, "statements": [b["stmts"] for b in blocks]}
+    if "badChoice" in model_result:
+        ctx.mismatch("block structure: the model rejects the implementation's choices", case, dict(detail, blocks=real), model_result)
+        return
+    if any(m.endswith(":raised") for m in model_blocks) or model_result.startswith(("raised", "invalidArgs")):
+        # the Python raises before / inside the block (from_id, IDSpace(...)): how far the SQL got is not modelled
+        ctx.count("K-blocks:skipped:model-call-raises")
+        return
+    rk = _result_kind(op, result)
+    if rk == "noid" and model_result.startswith("noid") and real and real[-1] == "stmt-read:0" and len(real) == len(model_blocks) + 1:
+        # `raise RuntimeError(f"… row count: {self.count(...)} …")`: one autocommit read for the text of the message
+        real = real[:-1]
+        ctx.count("K-blocks:exhausted-message-count-read")
+    ctx.count("K-blocks:compared")
+    ctx.count("K-blocks:shape:" + "+".join(m.split(":")[0] for m in model_blocks))
+    if real != model_blocks:
+        ctx.mismatch("block structure", case, dict(detail, blocks=real), model_blocks)
+        return
+    if rk is not None:
+        mk = " ".join(model_result.split(" ")[:2]) if model_result.startswith(("id ", "bool ", "nat ")) else model_result.split(" ")[0]
+        if mk != rk:
+            ctx.mismatch("block structure: result of the lone run", case, dict(detail, result=rk), model_result)
+
+
+class _RecordingClock:
+    """wraps the FakeDateTime installed by sched.install_fakes: same values, but remembers them"""
+
+    def __init__(self):
+        im = _im()
+        self.log = log = []
+        base = im.datetime
+
+        class Rec(base):
+            @classmethod
+            def now(cls, tz=None):
+                v = base.now(tz)
+                log.append(v)
+                return v
+
+        self._saved = base
+        im.datetime = Rec
+
+    def first_us(self):
+        from . import dbutil as D
+        return D.to_us(self.log[0]) if self.log else 0
+
+    def uninstall(self):
+        _im().datetime = self._saved
 
 
 def _prefill(dbfile, c):
@@ -176,6 +382,60 @@ def sequential_outcomes(c):
 _SEQ_CACHE: dict = {}
 
 
+_BLK_DONE: set = set()
+
+
+def block_structure_reference(ctx: Ctx, c, force=False):
+    """K "block structure" on sequential reference runs: every operation of the scenario, run one at a time on the
+    real code in two program-order-preserving orders (process 0 first / last process first), is compared block by
+    block with the model's lone run on the database of that moment.  Once per scenario."""
+    key = json.dumps([c["programs"], c.get("prefill"), c.get("preupload"), c.get("max_ids"), c.get("seed", 0)])
+    if key in _BLK_DONE and not force:
+        return
+    _BLK_DONE.add(key)
+    progs = c["programs"]
+    n = len(progs)
+    orders = [[pi for pi in range(n) for _ in progs[pi]], [pi for pi in reversed(range(n)) for _ in progs[pi]]]
+    if orders[0] == orders[1]:
+        orders = orders[:1]
+    im = _im()
+    saved = S.install_fakes()
+    try:
+        for order in orders:
+            td = tempfile.mkdtemp(prefix="vc03b")
+            try:
+                dbfile = os.path.join(td, "s.db")
+                _prefill(dbfile, c)
+                ms = [im.IDManager(dbfile, max_ids_per_subspace=c.get("max_ids", 1024)) for _ in range(n)]
+                pos = [0] * n
+                for pi in order:
+                    j = pos[pi]
+                    pos[pi] += 1
+                    op = progs[pi][j]
+                    S.set_current(c.get("seed", 0), n, pi, j)
+                    pre = dump(dbfile)
+                    rec = BlockRecorder(ms[pi].conn, dbfile)
+                    clock = _RecordingClock()
+                    ms[pi].conn.set_trace_callback(rec.before_statement)
+                    try:
+                        r = apply_op(ms[pi], op)
+                    except Exception as e:  # noqa
+                        r = ("exc", type(e).__name__, str(e)[:200])
+                    finally:
+                        ms[pi].conn.set_trace_callback(None)
+                        clock.uninstall()
+                    blocks = rec.finish()
+                    post = dump(dbfile)
+                    compare_block_structure(ctx, dict(c, k="blocks", at=[pi, j]), op=op, max_ids=c.get("max_ids", 1024), pre=pre, post=post,
+                                            result=r, blocks=blocks, stmts=rec.stmts, now_us=clock.first_us())
+                for m in ms:
+                    m.close()
+            finally:
+                shutil.rmtree(td, ignore_errors=True)
+    finally:
+        S.uninstall_fakes(saved)
+
+
 def judge(ctx: Ctx, c, schedule, results, final, trace):
     im = _im()
     case = dict(c, schedule=schedule, k="schedule")
@@ -265,6 +525,10 @@ def explore(ctx: Ctx, c, limit):
 
 
 def check_case(ctx: Ctx, c: dict):
+    if c["k"] == "blocks":
+        return block_structure_reference(ctx, c, force=True)
+    if c["k"] in ("explore", "schedule") and ctx.time_left() > 0:
+        block_structure_reference(ctx, c)
     if c["k"] == "explore":
         n = explore(ctx, c, c.get("limit", 300))
         ctx.count("explored-scenarios")
